@@ -164,6 +164,8 @@ def run(ctx):
     ctx.guarded('R16f', UPLC, lambda: shard_upload_no_shortcut(ctx, 'R16f'))
     ctx.rule('R16g', 'pipeline completeness: every successful return of add_data_impl, finish, process_aggregated_data_as_xorb and finalize_impl passed the calls that hand its data on (chunks -> deduper, file -> session, aggregate -> xorb upload + file records, session -> shard upload)')
     ctx.guarded('R16g', 'pipeline', lambda: r16g(ctx))
+    ctx.rule('R16h', 'a session shard is recorded as stored (exported into the persistent shard cache and registered there) only after upload_shard succeeded in that task (= C11-R11c): a later session never dedups against xorbs that no store holds')
+    ctx.guarded('R16h', 'shard upload task', lambda: _r16h(ctx))
 
 
 def r16a(ctx):
@@ -546,3 +548,8 @@ def r16e(ctx):
     ctx.check(len(roots) == 3 and all(r_ == roots[0] for r_ in roots) and len(nx) == 1, 'R16e', REGC, 'same xorb', a.loc(sp[0]),
               'hash, data and chunk boundaries are taken from one and the same xorb, the function\'s only RawXorbData parameter (%s)' % (roots[0] if roots else '?'),
               'hash, data and chunk boundaries handed to the upload task do not all come from the xorb being registered (%s)' % roots)
+
+
+def _r16h(ctx):
+    from . import rules_c11 as c11
+    c11.r11c(c11._Alias(ctx, 'R11c', 'R16h'))
